@@ -486,7 +486,7 @@ func genC09(tier string, seed int64) []core.Case {
 	r := rand.New(rand.NewSource(seed*15485863 + 9))
 	var cs []core.Case
 	for i := 0; i < n; i++ {
-		c := core.Case{ID: fmt.Sprintf("cmp%05d", i), Kind: "direct", Seed: r.Int63(), S: map[string]string{"keys": []string{"hostile", "hostile", "windowed", "long", "binary"}[r.Intn(5)]}, N: map[string]int64{}}
+		c := core.Case{ID: fmt.Sprintf("cmp%05d", i), Kind: "direct", Seed: r.Int63(), S: map[string]string{"keys": []string{"hostile", "prefix", "windowed", "long", "binary", "prefix"}[r.Intn(6)]}, N: map[string]int64{}}
 		if i < 3 {
 			c.N["sample"] = 1
 		}
